@@ -179,6 +179,11 @@ struct UnknownSymbolError : public Error {
     Error(location, (boost::format("could not find symbol %s") % name).str()) {}
 };
 
+struct RedefinedSymbolError : public Error {
+  RedefinedSymbolError(Location location, std::string name) :
+    Error(location, (boost::format("symbol %s is already defined in this scope") % name).str()) {}
+};
+
 struct NonConstArrayLengthError : public Error {
   NonConstArrayLengthError(Location location, std::string name) :
     Error(location, (boost::format("array %s length is not constant") % name).str()) {}
@@ -1744,6 +1749,9 @@ class SymbolTable {
 public:
   void insert(SymbolIDRef identifier, std::unique_ptr<Symbol> symbol) {
     //std::cout << "insert " << identifier.first << ", " << identifier.second <<"\n";
+    if (symbolMap.count(identifier) != 0) {
+      throw RedefinedSymbolError(symbol->getNode()->getLocation(), identifier.second);
+    }
     symbolMap[identifier] = std::move(symbol);
   }
 
